@@ -4,7 +4,7 @@ from __future__ import annotations
 import itertools
 
 from vf.core import Model, as_handle, rng_for
-from vf.diskcheck import compare_reads, continuation_reads, fault_retry_reads, crossing_count, gen_requests
+from vf.diskcheck import closed_handle_reads, compare_reads, continuation_reads, fault_retry_reads, crossing_count, gen_requests
 from vf.monitors import call
 from vf.writers import vdi as w
 
@@ -171,6 +171,8 @@ def run(case: dict, ctx) -> dict:
     res["cnt"]["handle_mutations"] = len(fh.mutations)
     if fh.mutations:
         res["viol"].append({"what": "handle mutated", "mech": "c09.handle", "detail": {"m": fh.mutations[:3]}})
+    if case.get("i", 0) % 4 == 0 and case["k"] != "parent":
+        closed_handle_reads(v, model, [fh], reqs, rng, res, MECH)
     bmap = meta["map"]
     states = "".join("A" if b >= 0 else ("U" if b == -1 else "Z") for b in bmap)
     ident = [b for b in bmap if b >= 0] == list(range(sum(1 for b in bmap if b >= 0)))
